@@ -123,17 +123,18 @@ def hashOp (acc : State K × UInt64 × UInt64) (o : Op K) : State K × UInt64 ×
     | _, _ => "rem"
   (s'', fnvStr (fnvStr ho (mutObs r s'' rel)) "\n", fnvStr (fnvStr hi (showShape s''.root)) "\n")
 
-def permsPair (n : Nat) (h : UInt64 × UInt64) (i j : Nat) : UInt64 × UInt64 :=
-  let pi := nthPerm n i
-  let pj := nthPerm n j
-  let ops : List (Op K) := pi.map (fun k => Op.ins (Int.ofNat k)) ++ pj.map (fun k => Op.rem (Int.ofNat k))
-  let (_, ho, hi) := ops.foldl hashOp ((init : State K), h.1, h.2)
-  (ho, hi)
+/-- hash stream of `perms`: for each insertion order the n insertion lines once, then for each
+    removal order the n removal lines (each removal order starts from the state after the inserts) -/
+def permsRow (n jlo jhi : Nat) (h : UInt64 × UInt64) (i : Nat) : UInt64 × UInt64 :=
+  let insOps : List (Op K) := (nthPerm n i).map (fun k => Op.ins (Int.ofNat k))
+  let (si, ho, hi) := insOps.foldl hashOp ((init : State K), h.1, h.2)
+  (List.range (jhi - jlo)).foldl (fun h dj =>
+    let remOps : List (Op K) := (nthPerm n (jlo + dj)).map (fun k => Op.rem (Int.ofNat k))
+    let (_, ho, hi) := remOps.foldl hashOp (si, h.1, h.2)
+    (ho, hi)) (ho, hi)
 
 def permsRange (n ilo ihi jlo jhi : Nat) : UInt64 × UInt64 :=
-  (List.range (ihi - ilo)).foldl (fun h di =>
-    (List.range (jhi - jlo)).foldl (fun h dj => permsPair n h (ilo + di) (jlo + dj)) h)
-    (fnvInit, fnvInit)
+  (List.range (ihi - ilo)).foldl (fun h di => permsRow n jlo jhi h (ilo + di)) (fnvInit, fnvInit)
 
 def parseNat (s : String) : Option Nat :=
   let cs := s.toList
